@@ -322,6 +322,21 @@ func checkC04(P *Program, r *Result, tier string) {
 		fa := A.fa(fn)
 		n := fa.expand(fn.Params[1])
 		for _, ret := range returnsOf(fn) {
+			// never more than is buffered: what the callers slice (buf[ri:ri+n]) lies inside the buffer's length
+			{
+				v := fa.expand(ret.Results[0])
+				bd, rx := cellSliceAt(fa, ret, "buf"), cellIntAt(fa, ret, "ri")
+				okAvail := bd != nil && rx != nil && fa.prove(ineqLE(v, bd.Len.sub(rx)), ret.Block(), rootCtx)
+				// a tail call of another fill routine hands on that routine's own guarantee
+				if c := asCall(ret.Results[0]); !okAvail && c != nil {
+					for _, g := range fills {
+						if c.Common().StaticCallee() == g && g != fn {
+							okAvail = true
+						}
+					}
+				}
+				r.add("SHORT⇒ERR", shortName(fn), "avail", "the count reported is never more than the bytes buffered behind the cursor", P.pos(instrPos(ret)), okAvail, "")
+			}
 			v := fa.expand(ret.Results[0])
 			ok := fa.prove(ineqGE(v, n), ret.Block(), rootCtx)
 			how := "returns at least the request"
